@@ -50,8 +50,43 @@ fn select_everything(claims: &serde_json::Value) -> serde_json::Map<String, serd
     }
 }
 
+/// SIZE SWEEP: credentials whose issuer-signed payload is EXACTLY a given number of bytes, around powers of two (fixed-size
+/// buffers, length-dependent code paths in decoders): issue once to measure, adjust a filler claim, issue again.
+fn size_sweep(ctx: &mut Ctx) {
+    let targets: Vec<usize> = [256usize, 512, 1024, 2048, 4096, 8192, 16384, 65536].iter().flat_map(|t| [t - 2, t - 1, *t, t + 1]).collect();
+    for (i, t) in targets.iter().enumerate() {
+        ctx.reset("rich", &format!("size sweep: payload of {} bytes", t));
+        let fmt = if i % 2 == 0 { Fmt::Compact } else { Fmt::Json };
+        let none = StratSpec::simple("none");
+        let payload_len = |raw: &str| crate::msg::split(raw, fmt).and_then(|m| m.jwt.split('.').nth(1).and_then(|p| crate::msg::unb64(p)).map(|b| b.len()));
+        let mk = |n: usize| serde_json::json!({"iss": "https://issuer.example", "exp": now() + 100_000, "filler": "x".repeat(n)});
+        let mut issuer = new_issuer("K1", "ES256");
+        let probe = mk(64);
+        let Some(first) = issue(ctx, &mut issuer, &IssueArgs { inst: "I1", key: "K1", alg: "ES256", claims: &probe, strat: &none, hk: None, decoy: false, fmt }).ok() else { continue };
+        let Some(p0) = payload_len(&first) else { continue };
+        if *t + 64 < p0 {
+            continue;
+        }
+        let claims = mk(64 + t - p0);
+        let Some(issued) = issue(ctx, &mut issuer, &IssueArgs { inst: "I1", key: "K1", alg: "ES256", claims: &claims, strat: &none, hk: None, decoy: false, fmt }).ok() else { continue };
+        if payload_len(&issued) != Some(*t) {
+            continue; // (the payload size is not a function of the filler length alone: nothing to sweep)
+        }
+        let res = Resolver::Const("K1".to_string());
+        verify(ctx, &VerifyArgs { raw: &issued, fmt, res: &res, aud: None, nonce: None, pair: 0, expect: crate::jt::NONE.to_string() });
+        if let Some(mut h) = holder_new(ctx, "P1", &issued, fmt).ok() {
+            if let Some(p) = present(ctx, "P1", &mut h, fmt, &serde_json::Map::new(), &KbArgs::default(), 0).ok() {
+                verify(ctx, &VerifyArgs { raw: &p, fmt, res: &res, aud: None, nonce: None, pair: 0, expect: crate::jt::NONE.to_string() });
+            }
+        }
+    }
+}
+
 pub fn run(ctx: &mut Ctx, o: &RichOpts) {
     let mut r = StdRng::seed_from_u64(o.seed);
+    if o.tree.wide && !o.time && o.plant == 0.0 && !o.only_issue && o.n >= 100 {
+        size_sweep(ctx);
+    }
     for case in 0..o.n {
         ctx.reset("rich", "");
         // WIDE PRELUDE: the first six cases of every run (drivers that allow wide claim sets) are credentials with hundreds of
@@ -63,10 +98,13 @@ pub fn run(ctx: &mut Ctx, o: &RichOpts) {
             fmt = if case % 2 == 0 { Fmt::Compact } else { Fmt::Json };
         }
         let (key, alg) = ISSUER_KEYS[r.gen_range(0..ISSUER_KEYS.len())];
-        let hk = match r.gen_range(if o.kb_on { 1 } else { 0 }..HOLDER_KEYS.len() + 1) {
+        let mut hk = match r.gen_range(if o.kb_on { 1 } else { 0 }..HOLDER_KEYS.len() + 1) {
             0 => None,
             i => Some(HOLDER_KEYS[i - 1]),
         };
+        if key == "K1" && hk.is_some() && r.gen_bool(0.25) {
+            hk = Some(("HK1", "ES256")); // self-issued: the confirmed holder key is the issuer's own key
+        }
         let decoy = o.decoy_on || r.gen_bool(0.5);
         let mut claims = rclaims(&mut r, &o.tree, now());
         if hk.is_none() && !prelude && r.gen_bool(0.3) {
